@@ -116,21 +116,48 @@ theorem relMapLoop_total (bs : Bytes) (n off : Nat) : ∃ r, Model.relMapLoop bs
       simp (disch := omega) only [h, if_false, uN_ok, ok_bind, pure_eq_ok, hr]
       exact ⟨_, rfl⟩
 
+/-- relMapIsV16 returns on every byte string and count, and answers "16" only when the 16 struct fits -/
+theorem relMapIsV16_total (bs : Bytes) (n : Int) :
+    ∃ b, Model.relMapIsV16 bs n = .ok b ∧ (b = true → 524 ≤ bs.length) := by
+  unfold Model.relMapIsV16
+  by_cases h : bs.length < 524
+  · rw [if_pos h]; exact ⟨false, rfl, by simp⟩
+  · rw [if_neg h]
+    simp (disch := omega) only [slice_ok, uN_ok, ok_bind, pure_eq_ok]
+    split
+    · exact ⟨true, rfl, fun _ => by omega⟩
+    · split
+      · exact ⟨true, rfl, fun _ => by omega⟩
+      · split
+        · exact ⟨false, rfl, by simp⟩
+        · exact ⟨_, rfl, fun _ => by omega⟩
+
 theorem parseRelMapFile_total (bs : Bytes) : ∃ r, Model.parseRelMapFile bs = .ok r := by
   unfold Model.parseRelMapFile
   by_cases h : bs.length < 512
   · simp [h]
   · simp (disch := omega) only [h, if_false, uN_ok, ok_bind, pure_eq_ok]
-    have hge : bs.length ≥ 8 + (if bs.length = 524 then 64 else 62) * 8 + 4 := by split <;> omega
-    generalize (if bs.length = 524 then 64 else 62 : Nat) = mx at hge ⊢
     split
     · exact ⟨_, rfl⟩
-    · split
-      · exact ⟨_, rfl⟩
-      · obtain ⟨r, hr⟩ := relMapLoop_total bs (toSigned 32 (rd 4 (List.drop 4 bs))).toNat 8
-        rw [hr]
-        simp only [ok_bind]
-        exact ⟨_, rfl⟩
+    · obtain ⟨v, hv, hlen⟩ := relMapIsV16_total bs (toSigned 32 (rd 4 (List.drop 4 bs)))
+      rw [hv]
+      obtain ⟨r, hr⟩ := relMapLoop_total bs (toSigned 32 (rd 4 (List.drop 4 bs))).toNat 8
+      cases v with
+      | true =>
+        have := hlen rfl
+        simp only [ok_bind, if_true]
+        split
+        · exact ⟨_, rfl⟩
+        · rw [hr]
+          simp (disch := omega) only [uN_ok, ok_bind]
+          exact ⟨_, rfl⟩
+      | false =>
+        simp only [ok_bind, Bool.false_eq_true, if_false]
+        split
+        · exact ⟨_, rfl⟩
+        · rw [hr]
+          simp (disch := omega) only [uN_ok, ok_bind]
+          exact ⟨_, rfl⟩
 
 /-- a page with the sequence magic whose only tuple is 23 bytes long with t_hoff = 0 -/
 def seqPanicWitness : Bytes :=
